@@ -164,6 +164,7 @@ type checkOutcome struct {
 	vacuous     []string
 	solverTime  float64
 	preludeStatus string
+	deadReturns   []string
 	byBackend   map[string]int
 }
 
@@ -219,6 +220,9 @@ func runProperty(p *vc.Prog, id string, claims *PropClaim, known []KnownFinding,
 			if !relevant(o, id) {
 				continue
 			}
+			if o.Kind == "vacuity-ret" && !all {
+				continue // per-return canaries run in the thorough tier only
+			}
 			generated[fv.Fn+"::"+clauseName(o.Name)] = true
 			if undecided[fv.Fn+"::"+o.Name] || undecided[fv.Fn+"::"+clauseName(o.Name)] {
 				out.undecided = append(out.undecided, fv.Fn+"::"+o.Name)
@@ -237,6 +241,12 @@ func runProperty(p *vc.Prog, id string, claims *PropClaim, known []KnownFinding,
 	for _, r := range rs {
 		out.solverTime += r.R.Seconds
 		fn := r.O.Func
+		if r.O.ExpectSat && r.O.Kind == "vacuity-ret" {
+			if r.R.Status == "unsat" {
+				out.deadReturns = append(out.deadReturns, shortName(fn)+"::"+r.O.Name+" @ "+r.O.SrcLine)
+			}
+			continue
+		}
 		if r.O.ExpectSat {
 			switch r.R.Status {
 			case "unsat":
@@ -541,6 +551,7 @@ func writeEvidence(root, id, tier string, seed int, out *checkOutcome, st *selft
 		"solver_time_s":            round2(out.solverTime),
 		"undecided_not_claimed":    out.undecided,
 		"known_findings_reported":  out.known,
+		"returns_unreachable_under_assumptions (thorough tier; dead code or contradictory contracts on the path — reviewed by hand)": out.deadReturns,
 		"vacuity_checks":           map[string]interface{}{"return_reachable_sat": out.vacuityOK, "return_reachable_unknown": out.vacuityUnk, "vacuous": len(out.vacuous), "prelude_consistency": out.preludeStatus},
 		"samples":                  samples,
 		"generator_errors":         out.genErrors,
